@@ -376,6 +376,20 @@ class RefModule:
     def delete_channel(self, rv, name):
         if name not in self.chans or not any(self.flags[name][n] for n in rv.N):
             raise Reject("channel not in view")
+        if not any(f for n, f in enumerate(self.flags[name]) if n not in set(rv.N)):
+            # the channel leaves the module: its own columns and current go with it; recordings, clamps and trainables
+            # that refer to them must be deleted first (F31 — before, integrate raised KeyError afterwards)
+            still = set()
+            for other, c in self.chans.items():
+                if other != name:
+                    still |= set(c["params"]) | set(c["states"])
+            dropped = {col for col in self.chan_cols(name) if col not in still}
+            cur = self.chans[name]["current"]
+            if cur not in [c["current"] for other, c in self.chans.items() if other != name]:
+                dropped.add(cur)
+            used = {st for _, st in self.recordings} | set(self.externals) | {t["key"] for t in self.trainables}
+            if dropped & used:
+                raise Reject("channel still recorded / clamped / trainable: " + ", ".join(sorted(dropped & used)))
         for n in rv.N:
             if not self.flags[name][n]:
                 continue
